@@ -890,10 +890,199 @@ fn run_c14_solver(st: &Shared, mut rep: RunReport) -> RunReport {
     rep.finish(st)
 }
 
+/// The mesher as a consumer of the variable-to-slot map: a union of spheres
+/// whose centres and radii are variables (met in a drawn order, supplied in
+/// another) is meshed, and every vertex must lie within a cell diagonal of the
+/// surface that the expression has with every variable bound by identity.
+/// (The renderers' use of the map is decided by C06/C07, whose brute-force
+/// reference binds by identity too; nothing else checks the mesher's.)
+fn run_c14_mesher(st: &Shared, mut rep: RunReport) -> RunReport {
+    rep.count("op.mesher_binding_run", 1);
+    rep.count("fault.fresh_hash_keys_and_var_ids", 1);
+    let (nsph, depth, backend) = {
+        let ch = &mut st.borrow_mut().ch;
+        (
+            1 + ch.choose("mb_spheres", 2) as usize,
+            4 + ch.choose("mb_depth", 2) as u8,
+            ch.choose("mb_backend", 3),
+        )
+    };
+    // well separated values: a mix-up moves the surface by much more than a
+    // cell
+    let mut centres = vec![-0.35f32, -0.2, -0.05, 0.1, 0.25, 0.32];
+    let mut radii = vec![0.3f32, 0.45, 0.58];
+    {
+        let ch = &mut st.borrow_mut().ch;
+        for a in (1..centres.len()).rev() {
+            let b = ch.choose("mb_cshuf", a as u32 + 1) as usize;
+            centres.swap(a, b);
+        }
+        for a in (1..radii.len()).rev() {
+            let b = ch.choose("mb_rshuf", a as u32 + 1) as usize;
+            radii.swap(a, b);
+        }
+    }
+    // parameters: (value, Some(var) | None = constant)
+    let mut params: Vec<(f32, Option<Var>)> = vec![];
+    for s in 0..nsph {
+        for k in 0..4 {
+            let v = if k < 3 { centres[s * 3 + k] } else { radii[s] };
+            let is_var = st.borrow_mut().ch.odds("mb_is_var", 3, 4);
+            params.push((v, if is_var { Some(Var::new()) } else { None }));
+        }
+    }
+    let mut ctx = Context::new();
+    let axes = [ctx.x(), ctx.y(), ctx.z()];
+    let mut root: Option<Node> = None;
+    for s in 0..nsph {
+        let leaf = |ctx: &mut Context, i: usize| -> Node {
+            match params[s * 4 + i] {
+                (_, Some(v)) => ctx.var(v),
+                (c, None) => ctx.constant(c),
+            }
+        };
+        // axis order and operand order drawn: they decide the order in which
+        // the compiler first meets each variable
+        let mut order = [0usize, 1, 2];
+        for a in (1..3).rev() {
+            let b = st.borrow_mut().ch.choose("mb_axshuf", a as u32 + 1) as usize;
+            order.swap(a, b);
+        }
+        let radius_first = st.borrow_mut().ch.flag("mb_radius_first");
+        let r0 = if radius_first { Some(leaf(&mut ctx, 3)) } else { None };
+        let mut sum: Option<Node> = None;
+        for k in order {
+            let c = leaf(&mut ctx, k);
+            let d = if st.borrow_mut().ch.flag("mb_flip") {
+                ctx.sub(c, axes[k]).unwrap()
+            } else {
+                ctx.sub(axes[k], c).unwrap()
+            };
+            let q = ctx.square(d).unwrap();
+            sum = Some(match sum {
+                None => q,
+                Some(p) => ctx.add(p, q).unwrap(),
+            });
+        }
+        let dist = ctx.sqrt(sum.unwrap()).unwrap();
+        let r = r0.unwrap_or_else(|| leaf(&mut ctx, 3));
+        let f = ctx.sub(dist, r).unwrap();
+        root = Some(match root {
+            None => f,
+            Some(p) => ctx.min(p, f).unwrap(),
+        });
+    }
+    let root = root.unwrap();
+    let nvars = params.iter().filter(|p| p.1.is_some()).count();
+    rep.sample = format!(
+        "mesher-binding backend={backend} spheres={nsph} depth={depth} vars={nvars} params={:?}",
+        params.iter().map(|p| (p.0, p.1.is_some())).collect::<Vec<_>>()
+    );
+    // supply order: drawn, with unrelated extras
+    let mut supply: Vec<usize> =
+        (0..params.len()).filter(|i| params[*i].1.is_some()).collect();
+    for a in (1..supply.len()).rev() {
+        let b = st.borrow_mut().ch.choose("mb_supply", a as u32 + 1) as usize;
+        supply.swap(a, b);
+    }
+    let mut sv = ShapeVars::<f32>::new();
+    if st.borrow_mut().ch.flag("mb_extra") {
+        sv.insert(Var::new().index().unwrap(), 55.5);
+    }
+    for i in &supply {
+        sv.insert(params[*i].1.unwrap().index().unwrap(), params[*i].0);
+    }
+    let reference = |p: [f32; 3]| -> f64 {
+        (0..nsph)
+            .map(|s| {
+                let q = &params[s * 4..s * 4 + 4];
+                let d = (0..3)
+                    .map(|k| (p[k] as f64 - q[k].0 as f64).powi(2))
+                    .sum::<f64>()
+                    .sqrt();
+                d - q[3].0 as f64
+            })
+            .fold(f64::INFINITY, f64::min)
+    };
+    fn go<F: Function + MathFunction + Clone + fidget_core::render::RenderHints>(
+        ctx: &Context,
+        root: Node,
+        sv: &ShapeVars<f32>,
+        depth: u8,
+    ) -> Result<Vec<[f32; 3]>, String> {
+        rt::catch(|| {
+            let shape = Shape::<F>::new(ctx, root).unwrap();
+            let bound = shape.bind(sv).expect("all variables supplied");
+            let settings = fidget_mesh::Settings {
+                depth,
+                world_to_model: Matrix4::identity(),
+                threads: None,
+                cancel: Default::default(),
+            };
+            let o = fidget_mesh::Octree::build(&bound, &settings)
+                .expect("never cancelled");
+            let m = o.walk_dual();
+            let mut used = vec![false; m.vertices.len()];
+            for t in &m.triangles {
+                for i in 0..3 {
+                    used[t[i]] = true;
+                }
+            }
+            m.vertices
+                .iter()
+                .zip(used)
+                .filter(|(_, u)| *u)
+                .map(|(v, _)| [v.x, v.y, v.z])
+                .collect()
+        })
+    }
+    let r = match backend {
+        0 => go::<VmFunction>(&ctx, root, &sv, depth),
+        1 => go::<JitFunction>(&ctx, root, &sv, depth),
+        _ => go::<GenericVmFunction<3>>(&ctx, root, &sv, depth),
+    };
+    rep.evaluations += 1;
+    rep.steps += 1;
+    match r {
+        Err(p) => rep.violate("C14", "mesher_binding_panic", p),
+        Ok(verts) => {
+            let cell = 2.0 / (1u32 << depth) as f64;
+            let tol = 1.25 * cell * 3f64.sqrt() + 1e-3;
+            rep.checked_oracle += 1;
+            st.borrow_mut().log("mb_mesh", verts.len() as u64, depth as u64);
+            if verts.len() < 8 {
+                rep.violate(
+                    "C14",
+                    "mesher_binds_variable_by_slot_not_identity",
+                    format!(
+                        "{} vertices for spheres that lie inside the meshed region when every variable has the value supplied under its identity",
+                        verts.len()
+                    ),
+                );
+            } else if let Some(v) =
+                verts.iter().find(|v| !(reference(**v).abs() <= tol))
+            {
+                rep.violate(
+                    "C14",
+                    "mesher_binds_variable_by_slot_not_identity",
+                    format!(
+                        "vertex {v:?} is {:.4} away from the surface of the expression with variables bound by identity (cell diagonal tolerance {tol:.4})",
+                        reference(*v)
+                    ),
+                );
+            }
+        }
+    }
+    rep.finish(st)
+}
+
 pub fn run_c14(st: &Shared, _tier: Tier) -> RunReport {
     let mut rep = RunReport::default();
     if st.borrow_mut().ch.odds("c14_solver_consumer", 1, 8) {
         return run_c14_solver(st, rep);
+    }
+    if st.borrow_mut().ch.odds("c14_mesher_consumer", 1, 16) {
+        return run_c14_mesher(st, rep);
     }
     // 1-3 functions per run; later ones usually mention the same variables
     // and axes as the first, met in a different traversal order, and all are
